@@ -970,5 +970,249 @@ theorem no_conversion_reports (st : Settings) (bsel : BalRow → Bool) (rsel : R
   · simp only [balgrpConv, balanceGroups, balgrpConvBy, balanceGroupsBy, groupBalancesConv_noconv st bsel _ hin]
   · rw [hctx]; rfl
 
+/-! ## 7. balance-group report with conversion -/
+
+/-- `groupBalancesConv` is the element-wise `Balance::from_iter` with the one context of the report -/
+theorem groupBalancesConv_spec (st : Settings) (sel : BalRow → Bool) (ctx : Ctx) :
+    ∀ (cs : List (String × List Txn)) (bs : List BalGroup), groupBalancesConv st sel ctx cs = .ok bs →
+      C13.Forall₂ (fun kg b => b.title = kg.1 ∧ balanceOfConv st sel ctx kg.2 = .ok b.bal) cs bs := by
+  intro cs
+  induction cs with
+  | nil => intro bs h; simp only [groupBalancesConv, Outcome.ok.injEq] at h; subst h; exact .nil
+  | cons c rest ih =>
+    intro bs h
+    obtain ⟨k, g⟩ := c
+    simp only [groupBalancesConv] at h
+    split at h
+    · cases h
+    · cases h
+    · rename_i b hb
+      split at h
+      · cases h
+      · cases h
+      · rename_i r hr
+        cases h
+        exact .cons ⟨rfl, hb⟩ (ih r hr)
+
+theorem mapO_congr {α β} (f g : α → Outcome β) : ∀ (l : List α), (∀ a ∈ l, f a = g a) → mapO f l = mapO g l := by
+  intro l
+  induction l with
+  | nil => intro _; rfl
+  | cons a t ih =>
+    intro h
+    simp only [mapO, h a List.mem_cons_self, ih (fun x hx => h x (List.mem_cons_of_mem _ hx))]
+
+/-- **ctx_of_subset**: the context built from *all* transactions converts a transaction of a sub-set exactly as the
+    context built from that sub-set alone would: the cache entry of a commodity does not depend on which other
+    commodities are in use (`RateAt` is per source commodity).  So handing every group the report's context — as
+    `balance_groups` does — gives the figures a context per group would give (the metadata block, printed once,
+    lists the commodities of all groups). -/
+theorem ctx_of_subset (es : List PriceEntry) (txns members : List Txn) (hsub : ∀ t ∈ members, t ∈ txns)
+    (tgt : String) (lk : PriceLookup) (t : Txn) (ht : t ∈ members) :
+    convertPrices (reportCtx lk (some tgt) (loadDb es) txns) t
+      = convertPrices (reportCtx lk (some tgt) (loadDb es) members) t := by
+  by_cases hlk : lk = .none
+  · subst hlk; rfl
+  unfold convertPrices reportCtx
+  rw [makeCtx_in lk txns tgt _ hlk, makeCtx_in lk members tgt _ hlk]
+  simp only
+  apply mapO_congr
+  intro p hp
+  rw [C07.convertPosting_eq, C07.convertPosting_eq]
+  have htim : C07.isTimed (makeCtx lk txns (some tgt) (loadDb es)).cache
+      = C07.isTimed (makeCtx lk members (some tgt) (loadDb es)).cache := by
+    cases lk <;> simp [makeCtx, C07.isTimed, Ctx.default]
+  have happ : C07.appliedEntry (makeCtx lk txns (some tgt) (loadDb es)).cache tgt t p
+      = C07.appliedEntry (makeCtx lk members (some tgt) (loadDb es)).cache tgt t p := by
+    have a1 := applied_rateAt es txns tgt lk hlk t (hsub t ht) p hp
+    have a2 := applied_rateAt es members tgt lk hlk t ht p hp
+    by_cases hc : p.comm = "" ∨ p.comm = tgt
+    · exact (a1.1 hc).trans (a2.1 hc).symm
+    · have h1 : p.comm ≠ "" := fun e => hc (.inl e)
+      have h2 : p.comm ≠ tgt := fun e => hc (.inr e)
+      exact C07.RateAt_unique (loadDb es) (C07.loadDb_sorted es) p.comm tgt _ _ _ (a1.2 h1 h2) (a2.2 h1 h2)
+  rw [happ, htim]
+
+theorem balanceOfConv_subset (st : Settings) (sel : BalRow → Bool) (es : List PriceEntry) (txns members : List Txn)
+    (hsub : ∀ t ∈ members, t ∈ txns) (tgt : String) (lk : PriceLookup) :
+    balanceOfConv st sel (reportCtx lk (some tgt) (loadDb es) txns) members
+      = balanceConv st sel lk (some tgt) (loadDb es) members := by
+  unfold balanceConv balanceOfConv convertedPosts convertedAll
+  rw [mapO_congr _ _ members (fun t ht => ctx_of_subset es txns members hsub tgt lk t ht)]
+
+/-- **balgrp_conv_figures**: with conversion on, the printed groups are the candidates (by period key, C13) that
+    have a listed row, titles strictly ascending; the figures of a group are `Balance::from_iter` of its members
+    converted with the report's one context — which is the converted *balance report* of the group's transactions
+    (`balanceConv` of the members), so `balance_conv_own_sum`, `balance_conv_rows`, … hold for every group. -/
+theorem balgrp_conv_figures (st : Settings) (sel : BalRow → Bool) (gb : GroupBy) (tz : Time.JournalTz)
+    (es : List PriceEntry) (txns : List Txn) (tgt : String) (lk : PriceLookup) (gs : List BalGroup)
+    (h : balgrpConv st sel gb tz lk (some tgt) (loadDb es) txns = .ok gs) :
+    (gs.map (·.title)).Pairwise (· < ·) ∧
+    ∀ g ∈ gs, ∃ members, (g.title, members) ∈ groupCandidates (groupKey gb tz) txns ∧
+      members = txns.filter (fun t => decide (groupKey gb tz t = g.title)) ∧
+      balanceOfConv st sel (reportCtx lk (some tgt) (loadDb es) txns) members = .ok g.bal ∧
+      balanceConv st sel lk (some tgt) (loadDb es) members = .ok g.bal ∧ g.bal.rows ≠ [] := by
+  unfold balgrpConv at h
+  split at h
+  case isFalse => cases h
+  unfold balgrpConvBy at h
+  obtain ⟨all, hall, rfl⟩ := (Outcome.map_ok _ _ _).mp h
+  have hf := groupBalancesConv_spec st sel _ _ _ hall
+  have hcs := C13.candidates_spec (groupKey gb tz) txns
+  constructor
+  · have ht : all.map (·.title) = (groupCandidates (groupKey gb tz) txns).map (·.1) :=
+      C13.forall₂_titles (fun _ _ hr => hr.1) hf
+    have hs : (all.map (·.title)).Pairwise (· < ·) := by rw [ht]; exact hcs.strict
+    exact hs.sublist (List.filter_sublist.map _)
+  · intro g hg
+    obtain ⟨hga, hne⟩ := List.mem_filter.mp hg
+    obtain ⟨kg, hkg, ht, hb⟩ := C13.forall₂_mem_right hf g hga
+    have hmem : kg.2 = txns.filter (fun t => decide (groupKey gb tz t = g.title)) := by rw [ht]; exact hcs.filter kg hkg
+    refine ⟨kg.2, by rw [ht]; exact hkg, hmem, hb, ?_, ?_⟩
+    · rw [← balanceOfConv_subset st sel es txns kg.2 _ tgt lk]
+      · exact hb
+      · intro t htm; rw [hmem] at htm; exact (List.mem_filter.mp htm).1
+    · simpa [BalGroup.isEmpty] using hne
+
+/-! ## 8. the reports do not depend on the order of the price file -/
+
+/-- corollary of C07 `db_order_free`: for price files with distinct (instant, base, target) keys, the three reports
+    (figures and metadata block) are the same for every order of the entries -/
+theorem reports_order_free (es es' : List PriceEntry) (hp : es.Perm es') (hd : C07.DistinctKeys es)
+    (st : Settings) (bsel : BalRow → Bool) (rsel : RegRow → Bool) (g : GroupBy) (tz : Time.JournalTz)
+    (lk : PriceLookup) (rc : Option String) (txns : List Txn) :
+    balanceReport st bsel lk rc (loadDb es) txns = balanceReport st bsel lk rc (loadDb es') txns ∧
+    registerReport rsel lk rc (loadDb es) txns = registerReport rsel lk rc (loadDb es') txns ∧
+    balgrpReport st bsel g tz lk rc (loadDb es) txns = balgrpReport st bsel g tz lk rc (loadDb es') txns := by
+  rw [C07.db_order_free es es' hp hd]
+  exact ⟨rfl, rfl, rfl⟩
+
+/-! ## 9. non-vacuity: a concrete journal and price file through the three reports
+
+C07's example price file and transactions, plus a transaction `t3` at instant 30 that posts to account `a` both in
+USD (converted) and in EUR (the report commodity): the two postings have *different original keys* but the *same
+converted key* `(EUR, a)` — the case NOTE-1 of `register_engine` is about. -/
+namespace Ex
+open C07.Ex
+
+def st0 : Settings := Settings.ofConfig false false true [] [] []
+def t3 : Txn := ⟨hdr 30, [post "a" 2 "USD", post "a" 5 "EUR", post "b" (-13) "EUR"]⟩
+def txns4 : List Txn := [t0, t1, t2, t3]
+
+theorem used4 : usedCommodities txns4 "EUR" = ["", "ACME", "USD"] := by
+  simp [usedCommodities, txns4, t0, t1, t2, t3, post, btreeSet, List.mergeSort, List.eraseDups]
+  decide
+
+/-! ### balance report, last-price: every USD posting × 4 (the entry at 30), whatever its instant -/
+
+theorem cache_last : fixedCache ["", "ACME", "USD"] "EUR" none db = [("USD", (30, d 4))] := by decide
+
+theorem ctx_last : reportCtx .lastPrice (some "EUR") (loadDb file) txns4 = ⟨.fixed [("USD", (30, d 4))], some "EUR"⟩ := by
+  simp only [reportCtx, makeCtx, load_file, used4, cache_last]
+
+def cps4 : List BPost := [⟨["a"], "EUR", d 4⟩, ⟨["b"], "EUR", d (-4)⟩, ⟨["a"], "EUR", d 40⟩, ⟨["b"], "EUR", d (-40)⟩,
+  ⟨["c"], "EUR", d 5⟩, ⟨["e"], "ACME", d 1⟩, ⟨["f"], "", d 1⟩, ⟨["a"], "EUR", d 8⟩, ⟨["a"], "EUR", d 5⟩, ⟨["b"], "EUR", d (-13)⟩]
+
+theorem conv_last : convertedPosts ⟨.fixed [("USD", (30, d 4))], some "EUR"⟩ txns4 = .ok cps4 := by decide
+
+def sorted4 : List BPost := [⟨["f"], "", d 1⟩, ⟨["e"], "ACME", d 1⟩, ⟨["a"], "EUR", d 4⟩, ⟨["a"], "EUR", d 40⟩,
+  ⟨["a"], "EUR", d 8⟩, ⟨["a"], "EUR", d 5⟩, ⟨["b"], "EUR", d (-4)⟩, ⟨["b"], "EUR", d (-40)⟩, ⟨["b"], "EUR", d (-13)⟩,
+  ⟨["c"], "EUR", d 5⟩]
+
+theorem sort4 : cps4.mergeSort (fun a b => keyLe a.key b.key) = sorted4 := by
+  simp [cps4, sorted4, List.mergeSort, keyLe, BPost.key, acctName]
+
+def sums4 : List (AKey × Dec) := [(("", ["f"]), d 1), (("ACME", ["e"]), d 1), (("EUR", ["a"]), d 57),
+  (("EUR", ["b"]), d (-57)), (("EUR", ["c"]), d 5)]
+def rows4 : List BalRow := [⟨["f"], "", d 1, d 1⟩, ⟨["e"], "ACME", d 1, d 1⟩, ⟨["a"], "EUR", d 57, d 57⟩,
+  ⟨["b"], "EUR", d (-57), d (-57)⟩, ⟨["c"], "EUR", d 5, d 5⟩]
+
+theorem sums_ok : accountSums cps4 = some sums4 := by
+  unfold accountSums; rw [sort4]; decide
+theorem complete_ok : completeTree st0 sums4 = .ok sums4 := by decide
+theorem walk_ok : flattenOpt ((sums4.filter (fun s => s.1.2.length == 1)).map
+    (treeNodes sums4 (maxDepth sums4 + 1))) = some rows4 := by decide
+theorem rows_sorted4 : rows4.mergeSort (fun a b => keyLe a.key b.key) = rows4 := List.mergeSort_of_pairwise (by decide)
+theorem balance_ok : balance st0 cps4 = .ok rows4 := by
+  unfold balance
+  rw [sums_ok]; simp only
+  rw [complete_ok]; simp only
+  rw [walk_ok]; simp only
+  rw [rows_sorted4]
+
+theorem meta_last : metadata ⟨.fixed [("USD", (30, d 4))], some "EUR"⟩ = [⟨some 30, "USD", some (d 4), "EUR"⟩] := by
+  simp [metadata, sortByKey]
+
+/-- the balance report: `a` = 1×4 + 10×4 + 2×4 + 5 = 57 EUR; ACME (only a chain to EUR) and the empty commodity stay;
+    the metadata block shows the one rate multiplied in -/
+theorem ex_balance_report : balanceReport st0 (fun _ => true) .lastPrice (some "EUR") (loadDb file) txns4 = .ok
+    ⟨[⟨some 30, "USD", some (d 4), "EUR"⟩], ⟨rows4, [("", d 1), ("ACME", d 1), ("EUR", d 5)]⟩⟩ := by
+  unfold balanceReport balanceConv balanceOfConv
+  rw [ctx_last, conv_last]
+  simp only [Outcome.bind, fromIter, balance_ok, meta_last]
+  decide
+
+/-- the hypotheses of `balance_conv_own_sum` / `balance_report_rates` are satisfiable -/
+theorem ex_postsWF : C02.PostsWF (postsOf txns4) := by
+  refine ⟨by decide, by decide, C02.namesInj_of_good _ ?_⟩
+  intro x hx c hc
+  have : ∀ x ∈ postsOf txns4, ∀ c ∈ x.acct, c ≠ "" ∧ ':' ∉ c.toList := by decide
+  exact this x hx c hc
+
+example : ∀ e ∈ file, e.base ≠ "" := by decide
+
+/-- `balance_report_rates` applied: own sum of `a` × 10²⁸ is the sum computed from the metadata records -/
+example : (d 57).units * E28 = shownSum [⟨some 30, "USD", some (d 4), "EUR"⟩] "EUR" (pairsOf txns4) ("EUR", ["a"]) :=
+  (balance_report_rates st0 (fun _ => true) file (by decide) txns4 "EUR" .lastPrice (Or.inl rfl) ex_postsWF _
+    ex_balance_report).2.2 ⟨["a"], "EUR", d 57, d 57⟩ (by simp [rows4])
+
+/-! ### register report, txn-time: rate at or before the transaction's instant; pre-sort by the original key -/
+
+theorem cache_timed : timedCache ["", "ACME", "USD"] "EUR" db
+    = [("USD", [⟨10, "USD", d 2, "EUR"⟩, ⟨20, "USD", d 3, "EUR"⟩, ⟨30, "USD", d 4, "EUR"⟩])] := by
+  simp [timedCache, commCache, db, List.mergeSort, mapInsert]
+
+def tc : Cache := .timed [("USD", [⟨10, "USD", d 2, "EUR"⟩, ⟨20, "USD", d 3, "EUR"⟩, ⟨30, "USD", d 4, "EUR"⟩])]
+
+theorem ctx_timed : reportCtx .txnTime (some "EUR") (loadDb file) txns4 = ⟨tc, some "EUR"⟩ := by
+  simp only [reportCtx, makeCtx, load_file, used4, cache_timed, tc]
+
+def stream4 : List (Txn × List RItem) := [
+  (t0, [⟨post "a" 1 "USD", "USD", d 1, none⟩, ⟨post "b" (-1) "USD", "USD", d (-1), none⟩]),
+  (t1, [⟨post "a" 10 "USD", "EUR", d 30, some (d 3)⟩, ⟨post "b" (-10) "USD", "EUR", d (-30), some (d 3)⟩]),
+  (t2, [⟨post "c" 5 "EUR", "EUR", d 5, none⟩, ⟨post "e" 1 "ACME", "ACME", d 1, none⟩, ⟨post "f" 1 "", "", d 1, none⟩]),
+  (t3, [⟨post "a" 2 "USD", "EUR", d 8, some (d 4)⟩, ⟨post "a" 5 "EUR", "EUR", d 5, none⟩,
+        ⟨post "b" (-13) "EUR", "EUR", d (-13), none⟩])]
+
+/-- t0 (instant 9) is before the first USD rate (10): unchanged; t1 (20) uses the entry *at* 20; t3 (30) the one at 30 -/
+theorem stream_timed : convertedStream ⟨tc, some "EUR"⟩ txns4 = .ok stream4 := by decide
+
+def rrow (a : String) (n : Int) (c : String) (tot : Int) (tcm : String) (r : Option Dec) : RegRow :=
+  ⟨post a n c, d tot, tcm, r⟩
+
+/-- entry of `t3`: the EUR posting to `a` (original key `(EUR, a)`) is accumulated and listed *before* the USD posting
+    (original key `(USD, a)`), although both are summed under `(EUR, a)`: 30 + 5 = 35, then 35 + 8 = 43 -/
+theorem ex_register_engine : registerEngine selAll stream4 = .ok [
+    ⟨t0, [rrow "a" 1 "USD" 1 "USD" none, rrow "b" (-1) "USD" (-1) "USD" none]⟩,
+    ⟨t1, [rrow "a" 10 "USD" 30 "EUR" (some (d 3)), rrow "b" (-10) "USD" (-30) "EUR" (some (d 3))]⟩,
+    ⟨t2, [rrow "f" 1 "" 1 "" none, rrow "e" 1 "ACME" 1 "ACME" none, rrow "c" 5 "EUR" 5 "EUR" none]⟩,
+    ⟨t3, [rrow "a" 5 "EUR" 35 "EUR" none, rrow "b" (-13) "EUR" (-43) "EUR" none,
+          rrow "a" 2 "USD" 43 "EUR" (some (d 4))]⟩] := by
+  simp [registerEngine, stream4, registerLoop, registerTxn, accPostings, accPosting,
+    List.mergeSort, List.MergeSort.Internal.splitInTwo, itemLe, rowLe, Posting.acctnKey, keyLe, acctName,
+    t0, t1, t2, t3, post, rrow, d, RegMap.set, RegMap.empty, RItem.key, Outcome.ofOption, Dec.add, Dec.ofInt,
+    Dec.isZero, sgn, max96]
+
+theorem ex_register_report : (registerReport selAll .txnTime (some "EUR") (loadDb file) txns4).map (·.records)
+    = .ok [⟨none, "USD", none, "EUR"⟩] := by
+  unfold registerReport registerConv
+  rw [ctx_timed, stream_timed]
+  simp only [Outcome.bind, ex_register_engine, Outcome.map]
+  simp [metadata, sortByKey, tc]
+
+example : C03.TxnsWF txns4 := txnsWF_of_postsWF txns4 ex_postsWF
+
+end Ex
+
 end C07b
 end Tackler
